@@ -73,6 +73,19 @@ package client
 //@   ensures [expired-removed] ((value.deadline != 0 && now > value.deadline) || old(atomicLoad(value.retransmit)) >= maxRetransmit) ==> notCalled(WriteMessage) && called(Delete) && called(ReleaseMessage)
 //@   ensures [not-due] !((value.deadline != 0 && now > value.deadline) || old(atomicLoad(value.retransmit)) >= maxRetransmit) && !(now > value.start + acknowledgeTimeout * (old(atomicLoad(value.retransmit)) + 1)) ==> notCalled(WriteMessage) && notCalled(Delete) && atomicLoad(value.retransmit) == old(atomicLoad(value.retransmit))
 
+// The housekeeping sweep over the pending confirmables visits EVERY entry on every tick: its callback
+// hands each entry to checkMidHandlerContainer exactly once and always asks for the next one (seed C13d-2
+// returned "still pending" from the callback, so the sweep stopped at the first expired entry and a tick
+// removed at most one).
+//
+//@ func (*Conn) CheckExpirations$1(key int32, value *midElement) (cont bool)
+//@   requires value != nil
+//@   assumes x.cc != nil && x.cc.midHandlerContainer != nil && 0 <= x.acknowledgeTimeout && x.acknowledgeTimeout <= 1000000000000 && atomicLoad(value.retransmit) < 1000000
+//@   modifies anything
+//@   opaque-calls pure
+//@   ensures [sweep-goes-on] cont
+//@   ensures [every-entry-is-checked-once] callCount(checkMidHandlerContainer) == 1 && callArg(checkMidHandlerContainer, 0, 4) == key && callArg(checkMidHandlerContainer, 0, 5) == value
+//
 // ---- C05: de-duplication of datagram requests by message ID ----------------------------------------
 //
 // The reply to a request is stored in the response cache under the REQUEST's message ID, the cache is
@@ -355,6 +368,7 @@ package client
 //@   ensures [duplicate-mid-not-sent] callRes(LoadOrStore, 0, 1) ==> err != nil && notCalled(WriteMessage) && notCalled(LoadAndDelete)
 //@   ensures [send-failure-removed] called(WriteMessage) && callRes(WriteMessage, 0, 0) != nil ==> err != nil && callCount(LoadAndDelete) == 1 && callArg(LoadAndDelete, 0, 1) == callRes(GetMessageID, 0, 0)
 //@   ensures [success-hands-over-cleanup] err == nil ==> cancel != nil && notCalled(LoadAndDelete) && callCount(WriteMessage) == 1
+//@   ensures [ping-message-released-at-most-once] callCount(ReleaseMessage) <= 1 && (err == nil ==> notCalled(ReleaseMessage))
 
 // ---- C12: a pooled message has one owner at a time ---------------------------------------------------
 //
